@@ -91,3 +91,25 @@ package api
 //@   ensures keysOK()
 //@   loop 0 invariant keysOK()
 //@   loop 1 invariant keysOK() && rangeindex >= -1 && rangeindex <= 1<<48
+
+//@ func NewLoggingResponseWriter
+//@   ensures r0 != nil && fresh(r0) && r0.Request == r && r0.Status == 0
+
+// the request pipeline: cross-origin check first, then authentication, then the handler
+//@ func (*mainHandler).handle
+//@   requires mh != nil && r != nil && w != nil && mh.mux != nil && r.URL != nil
+//@   assume keysOK() && sessionsOK()
+//@   modifies *
+//@   ghost var called0 bool = false
+//@   ghost var hn0 string = ""
+//@   ghost var dev2 bool = false
+//@   ghost var inSl bool = false
+//@   ghost var originChecked bool = false
+//@   at after (*URL).Hostname#0 ghost called0 = true
+//@   at after (*URL).Hostname#0 ghost hn0 = ret0
+//@   at after dynamic#1 ghost dev2 = ret0
+//@   at after utils.StringInSlice ghost inSl = ret0
+//@   at call invoke.Header#6 assert originURL.Host == r.Host || (called0 && hn0 == r.Host) || originURL.Scheme == "chrome-extension" || (dev2 && inSl)
+//@   at call invoke.Header#6 ghost originChecked = true
+//@   at call authenticateRequest assert origin == "" || originChecked
+//@   at call invoke.ServeHTTP assert apiRequest.AuthToken != nil && handler != nil && (origin == "" || originChecked)
